@@ -248,6 +248,12 @@ def _silent(task):
     return {"bad": bad, "script": script}
 
 
+def _nostmt(task):
+    dialect, script = task
+    o = outcome(script, dialect, silent=True)
+    return {"script": script, "o": {k: v for k, v in o.items() if k != "obs"}}
+
+
 def run(tier: str, opts: dict) -> int:
     rep = Report("C10", tier, "fault_enumeration")
     tasks = []
@@ -360,6 +366,20 @@ def run(tier: str, opts: dict) -> int:
                 sigs.setdefault("silent|" + r["bad"][0][:60], []).append((t[0], r["script"], ""))
             else:
                 rep.violation("silent-mode-contract", {"part": "silent", "dialect": t[0], "sql": r["script"], "unsupported": t[3], "position": t[2]}, {"bad": r["bad"]})
+    # texts that contain no statement at all, alone and at the end of a script, in silent mode
+    ntasks = []
+    for d, text in NO_STATEMENT:
+        ntasks += [(d, text), (d, SUPPORTED[0] + ";\n" + text), (d, text + "\n;\n" + SUPPORTED[0])]
+    for t, r in zip(ntasks, pmap(_nostmt, ntasks, chunk=2)):
+        o = r["o"]
+        if o["kind"] == "escape":
+            s = f"sqlfluff|{o['exc']}|{o['site']}"
+            if regen:
+                sigs.setdefault(s, []).append((t[0], r["script"], "silent/no-statement"))
+            elif s in known:
+                rep.known_finding(known[s])
+            else:
+                rep.violation("internal-error-escapes", {"part": "silent-no-statement", "dialect": t[0], "sql": r["script"], "silent": True}, {"exception": o["exc"], "site": o["site"], "signature": s})
     if regen:
         for s, items in sorted(sigs.items(), key=lambda kv: -len(kv[1])):
             print(len(items), s)
@@ -393,7 +413,7 @@ def replay(body: dict, opts: dict) -> int:
     c = body["case"]
     if c.get("part") == "silent" and "unsupported" in c:
         print("silent-mode case; re-run the check for the full comparison")
-    o = outcome(c["sql"], c["dialect"])
+    o = outcome(c["sql"], c["dialect"], silent=bool(c.get("silent")))
     print(json.dumps(o, indent=1, default=str)[:2000])
     if o["kind"] != "escape":
         print("OK on replay (no internal error escapes)")
